@@ -32,6 +32,11 @@ pub struct Scn {
     pub strategy: String,
     /// "noerror" | "nxdomain" | "refused"
     pub category: String,
+    /// moving-clock mode: the clock is *not* frozen; it advances (eager clock policy) while
+    /// requests are in flight - a thread can be preempted inside `handle_message` across a second
+    /// boundary. Each thread pauses this long (cyclic, ms) between its requests; empty = classic mode.
+    #[serde(default)]
+    pub pauses_ms: Vec<u64>,
 }
 
 pub struct C28;
@@ -64,18 +69,23 @@ impl Prop for C28 {
                 _ => "pct:5".into(),
             },
             category: pick(r, &["noerror", "noerror", "nxdomain", "refused"]).to_string(),
+            pauses_ms: if chance(r, 20) { (0..range(r, 1, 4)).map(|_| *pick(r, &[0u64, 0, 40, 300, 700, 1000, 1100])).collect() } else { vec![] },
         }
     }
     fn plan(r: &mut SplitMix, scn: &Scn) -> ExecPlan {
         ExecPlan {
             seed: r.next(),
             strategy: crate::parse_strategy(&scn.strategy, (scn.tasks * scn.per_task * 6) as u32),
-            clock: ClockPolicy::Des,
+            clock: if scn.pauses_ms.is_empty() { ClockPolicy::Des } else { ClockPolicy::Eager(30) },
             max_steps: 100_000,
         }
     }
     fn run(scn: &Scn) {
-        run(scn)
+        if scn.pauses_ms.is_empty() {
+            run(scn)
+        } else {
+            run_moving_clock(scn)
+        }
     }
     fn shrink(s: &Scn) -> Vec<Scn> {
         let mut out = vec![];
@@ -114,15 +124,20 @@ impl Prop for C28 {
             c.slip = 0;
             out.push(c);
         }
+        if s.pauses_ms.len() > 1 {
+            let mut c = s.clone();
+            c.pauses_ms.pop();
+            out.push(c);
+        }
         out
     }
     fn rule() -> String {
-        "one execution = 2-16 simulated threads x 1-6 identical UDP queries per burst (one stream: same /24, same QNAME up to case, same category), 1-3 bursts separated by whole simulated seconds, under one seeded schedule (random / PCT 2-5); rate 1-5, window 1-4, slip {0,1,2,5}, table size {1,2,7,64,65537}. Non-trivial = at least one preemption; distinct = distinct (scenario, schedule) hash".into()
+        "one execution = 2-16 simulated threads x 1-6 identical UDP queries per burst (one stream: same /24, same QNAME up to case, same category), 1-3 bursts separated by whole simulated seconds, under one seeded schedule (random / PCT 2-5); rate 1-5, window 1-4, slip {0,1,2,5}, table size {1,2,7,64,65537}. In a fifth of the runs the clock moves while requests are in flight (eager clock, a ticker thread, pauses between a thread's requests) and the count is judged against the bucket's envelope over time. Non-trivial = at least one preemption; distinct = distinct (scenario, schedule) hash".into()
     }
     fn assumptions() -> Vec<String> {
         vec![
             "exactly one response stream per limiter: a colliding stream legally evicts the resident entry (documented in RrlParams), which would make the exact count oracle unsound".into(),
-            "the clock is frozen within a burst ('within one second') and advances by whole seconds between bursts".into(),
+            "classic mode: the clock is frozen within a burst ('within one second') and advances by whole seconds between bursts; moving-clock mode (a fifth of the runs): the clock advances while requests are in flight, and the oracle is the bucket's envelope - at every instant t the number of full responses already returned is at most capacity + rate x whole seconds since the first request was invoked, and at least min(requests, capacity) are sent in all".into(),
         ]
     }
     fn real_components() -> Vec<&'static str> {
@@ -135,7 +150,7 @@ impl Prop for C28 {
         "E1 simrt-threads"
     }
     fn expected_probes() -> Vec<&'static str> {
-        vec!["c28_burst_hit_limit", "c28_refill_between_bursts", "c28_slipped", "c28_dropped"]
+        vec!["c28_burst_hit_limit", "c28_refill_between_bursts", "c28_slipped", "c28_dropped", "c28_moving_clock_runs", "c28_request_spanned_a_second_boundary"]
     }
 }
 
@@ -259,6 +274,110 @@ fn run(scn: &Scn) {
         if crate::util::has_violation() {
             break;
         }
+    }
+    simrt::finish();
+}
+
+/// Moving-clock mode: requests of one stream from several threads while simulated time passes
+/// (a ticker keeps timers pending; the eager clock lets them fire between any two scheduling
+/// points, so a request can be preempted inside `handle_message` across a second boundary).
+fn run_moving_clock(scn: &Scn) {
+    simrt::start(world_cfg(scn.hash_key, FaultCfg::none()));
+    simrt::probe("c28_moving_clock_runs");
+    let catalog = qz::catalog_of(vec![qz::example_zone(1)]);
+    let mut server = Server::new(catalog);
+    let mut p = RrlParams::new(scn.rate, scn.rate, scn.rate, scn.window).expect("params");
+    p.set_slip(scn.slip);
+    p.set_size(scn.table_size).expect("size");
+    server.set_rrl_params(Some(p));
+    let server = Arc::new(server);
+    let cap = (scn.rate * scn.window) as u64;
+    let (qn, qtype): (&str, u16) = match scn.category.as_str() {
+        "nxdomain" => ("nosuch.example.", wire::T_A),
+        "refused" => ("www.elsewhere.", wire::T_A),
+        _ => ("www.example.", wire::T_A),
+    };
+    // (invoked ns, returned ns, full response)
+    let log: Arc<std::sync::Mutex<Vec<(u64, u64, bool)>>> = Arc::new(std::sync::Mutex::new(vec![]));
+    let bad = Arc::new(std::sync::Mutex::new(None::<String>));
+    let per = scn.per_task * scn.gaps_s.len().max(1);
+    let done = Arc::new(AtomicU32::new(0));
+    let ticker = {
+        let (done, tasks) = (done.clone(), scn.tasks as u32);
+        shuttle::thread::spawn(move || {
+            // keeps a timer pending every quarter second until the query threads are done
+            let mut n = 0;
+            while done.load(SeqCst) < tasks && n < 400 {
+                simrt::thread::sleep(Duration::from_millis(250));
+                n += 1;
+            }
+        })
+    };
+    let hs: Vec<_> = (0..scn.tasks)
+        .map(|k| {
+            let (server, log, bad, done) = (server.clone(), log.clone(), bad.clone(), done.clone());
+            let (qn, pauses) = (qn.to_string(), scn.pauses_ms.clone());
+            shuttle::thread::spawn(move || {
+                let mut buf = vec![0u8; 2048];
+                for i in 0..per {
+                    let pause = pauses[(i + k) % pauses.len()];
+                    if pause > 0 {
+                        simrt::thread::sleep(Duration::from_millis(pause));
+                    }
+                    let msg = wire::query((k * 100 + i) as u16, &qn, qtype);
+                    let src = IpAddr::V4(Ipv4Addr::new(192, 0, 2, (k + 1) as u8));
+                    let t0 = simrt::now_ns();
+                    let r = qz::ask_buf(&server, &msg, src, Transport::Udp, &mut buf);
+                    let t1 = simrt::now_ns();
+                    if t1 / 1_000_000_000 != t0 / 1_000_000_000 {
+                        simrt::probe("c28_request_spanned_a_second_boundary");
+                    }
+                    let full = match r {
+                        None => false,
+                        Some(n) => match wire::decode(&buf[..n]) {
+                            Ok(m) => !m.tc(),
+                            Err(e) => {
+                                *bad.lock().unwrap() = Some(format!("undecodable response: {e:?}"));
+                                false
+                            }
+                        },
+                    };
+                    log.lock().unwrap().push((t0, t1, full));
+                }
+                done.fetch_add(1, SeqCst);
+            })
+        })
+        .collect();
+    for h in hs {
+        let _ = h.join();
+    }
+    let _ = ticker.join();
+    if let Some(b) = bad.lock().unwrap().take() {
+        viol("bad-response", b);
+    }
+    let mut log = log.lock().unwrap().clone();
+    let requests = log.len() as u64;
+    let t_first = log.iter().map(|x| x.0).min().unwrap_or(0);
+    // envelope: full responses already returned at time t  <=  capacity + rate x whole seconds
+    // since the first request of the stream was invoked (the bucket's first refill instant
+    // cannot lie before that)
+    log.sort_by_key(|x| x.1);
+    let mut sent = 0u64;
+    for (_, returned, full) in &log {
+        if *full {
+            sent += 1;
+            let allowed = cap + scn.rate as u64 * ((returned - t_first) / 1_000_000_000);
+            if sent > allowed {
+                viol(
+                    "more-responses-than-bucket-allows",
+                    format!("moving clock: {sent} full responses had been returned {} ms after the stream's first request was invoked; capacity {cap} + rate {} x whole seconds allows {allowed}", (returned - t_first) / 1_000_000, scn.rate),
+                );
+                break;
+            }
+        }
+    }
+    if sent < requests.min(cap) && !crate::util::has_violation() {
+        viol("fewer-responses-than-bucket-allows", format!("moving clock: {sent} full responses to {requests} requests, the bucket's capacity is {cap}"));
     }
     simrt::finish();
 }
